@@ -66,7 +66,7 @@ def pcanon_cfg(v):
             return ['obj', 'LabObjVar', {'a': pcanon_cfg(kw['a']), 'options': pcanon_cfg({k: x for k, x in kw.items() if k not in ('a', 'shape')}),
                                          'shape': pcanon_cfg(list(kw.get('shape', (4, 3))))}]
         if name == 'LabChainObj':
-            return ['obj', 'LabChainObj', {'a': pcanon_cfg(kw['a']), 'inited': True}]
+            return ['obj', 'LabChainObj', {'a': pcanon_cfg(kw['a']), 'inited': True, 'saw_tasks': True}]
         return ['obj', name, {'x': pcanon_cfg(kw['x'])}]
     if isinstance(v, tuple) and v and v[0] == 'path':
         return ['p', v[1]] if v[1] is not None else ['N']
@@ -100,7 +100,7 @@ def received_cfg(v, gv):
             return ['obj', 'LabObjVar', {'a': received_cfg(kw['a'], gv), 'options': received_cfg({k: x for k, x in kw.items() if k not in ('a', 'shape')}, gv),
                                          'shape': received_cfg(list(kw.get('shape', (4, 3))), gv)}]
         if name == 'LabChainObj':
-            return ['obj', 'LabChainObj', {'a': received_cfg(kw['a'], gv), 'inited': True}]
+            return ['obj', 'LabChainObj', {'a': received_cfg(kw['a'], gv), 'inited': True, 'saw_tasks': True}]
         return ['obj', name, {'x': received_cfg(kw['x'], gv)}]
     if isinstance(v, tuple) and v and v[0] == 'path':
         return ['p', subst_text(v[1], gv)] if v[1] is not None else ['N']
